@@ -60,4 +60,8 @@ CLAIMED = {
    text="Differential testing of the two implementations in separate processes: pure-Python fallbacks (extensions blocked) versus extensions rebuilt from the current .pyx sources; exhaustive grids for the five accelerated functions (about a million argument points in the quick tier) and generated projects scheduled end to end with dates and the full float ledger compared exactly.",
    note="The in-tree .so is only compared for a staleness note; verdicts come from sources (a .pyx edit is visible because it is recompiled, a fallback edit because the extensions are blocked). Trusts Cython/gcc present in the sandbox.",
    technique="differential testing over exhaustively enumerated grids and Hypothesis-generated projects"),
+ "C18": dict(
+   text="Generated scheduled projects with 1-3 task reports (column subsets, time formats on project/report, leaf filter, json/csv) are rendered through the real report API 1-5 times in generated order; rows, cells, JSON/CSV agreement, written files and the cost column are recomputed from an independent observation of the schedule and the ledger, and the schedule digest must be unchanged by report generation.",
+   note="Trusts the observation extraction (task attributes, ledger) as the scheduled values; column titles, sorting, hiding and other report kinds are outside the statement.",
+   technique="property-based testing (Hypothesis) with a reference rendering oracle and a before/after invariant over generation sequences"),
 }
